@@ -361,6 +361,19 @@ func runC10(w *World, c *Check) {
 	}
 	fieldsFromDep("client.(*Client).addSession", `new\(session\)|local<client\.session>|&?client\.session\{.*|.*session.*`, "dep")
 	fieldsFromDep("client.(*session).update", `recv`, "dep")
+	// the session is filed under the realm the TGT is *for* — the last component of krbtgt/REALM —
+	// not under the realm that issued it: for a cross-realm TGT krbtgt/B@A these differ, and sessionTGT(B)
+	// must find it (while the home-realm session must not be replaced)
+	if fn := w.Func("client.(*Client).addSession"); fn != nil {
+		fa := NewFuncAn(w, fn)
+		ns := substParams(fn, `tgt.SName.NameString`)
+		got := ""
+		for _, st := range fa.storesTo(`(new\(session\)|local<client\.session>(#\d+)?)\.realm`) {
+			got = fa.R.R(st.Val)
+		}
+		good := got == ns+"[(len("+ns+") - 1)]" || got == ns+"[1]"
+		c.Decide(good, "C10.pairing", FuncKey(fn), "session.realm", w.Pos(fn.Pos()), "a TGT session is keyed by the realm component of the TGT's service name (krbtgt/REALM)", "the session realm is "+got)
+	}
 
 	// ---- rule 3: referral bound --------------------------------------------------------
 	for _, fk := range []string{"client.(*Client).ASExchange", "client.(*Client).TGSExchange"} {
